@@ -216,7 +216,9 @@ def helper_interval(repo, view_f, call):
   if len(call.args) != len(params) or call.keywords:
     return None
   sub = dict(zip(params, call.args))
-  body = dataflow.clone(rets[0].value)
+  from mmsa.types import FuncCtx
+  hctx = FuncCtx.of(h)
+  body = hctx.rd.expand(hctx.node_at(rets[0]), rets[0].value, keep=tuple(params))[0]   # look through the helper's locals
 
   def rep(e):
     if isinstance(e, ast.Name) and e.id in sub:
